@@ -100,6 +100,7 @@ NAIVE_ZP_ROWS = 1411000
 LIST_Z2_COMP = 1002001
 LIST_ZP_ROWS_MAP_SWAPS = 1011110
 SET_ZP_SETROWS_SWAPS = 1112010
+REG_INSERT_AT_PENDING = "2600002300000015010000f200ea000000e952"  # core6, VECTOR/Z2/rows=off/vector/swaps
 
 t = Tape(HEAP_ZP, p=5).insert({0: 1, 2: 3}).insert({})
 t.op(MSA, [1] + t.coef(2))  # target 1 (empty), source 0 (only candidate), coefficient 2
@@ -210,6 +211,28 @@ finding("C09-vector-erased-source", t, "CRASH",
         "stored entry: out-of-bounds write",
         "VECTOR column type: add_to / multiply_target_and_add_to from a source column holding a lazily erased entry into a "
         "column whose container is empty")
+
+# ---- hand-picked seeds (must hold; replayed first on every run, starting corpus of the libFuzzer campaigns) ----------
+seeds = []
+t = Tape(NAIVE_ZP_ROWS, p=5).insert({0: 1, 2: 2}).insert({1: 1}).insert({})
+t.op(ADD, [1, 0]).op(MTA, [1, 0] + t.coef(4)).op(MSA, [2, 0] + t.coef(2)).op(ZERO_E, [1, 1]).op(ZERO_E, [1, 5]).op(ZERO_C, [0])
+t.op(MSA, [0, 1] + t.coef(0)).op(MTA, [0, 1] + t.coef(0)).op(RM_LAST, [])
+seeds.append(t.write("seed-zp-basic.tape"))
+t = Tape(HEAP_Z2).insert({0: 1, 3: 1}).insert({3: 1, 5: 1}).insert({})
+t.op(ADD, [2, 0]).op(ADD, [2, 1]).op(ADD, [2, 0]).op(MTA, [0, 0, 0]).op(ZERO_E, [1, 3]).op(ZERO_E, [1, 3]).op(INS_AT, [2, 0]).op(RM_LAST, [])
+seeds.append(t.write("seed-heap-z2.tape"))
+t = Tape(LIST_Z2_COMP).insert({0: 1}).insert({0: 1}).insert({1: 1}).insert({0: 1, 1: 1})
+t.op(ADD, [0, 1]).op(ADD, [2, 0]).op(ADD_R, [3] + t.entries({1: 1}, False)).op(ERASE_R, [3])
+seeds.append(t.write("seed-compressed.tape"))
+t = Tape(HEAP_ZP_SWAPS, p=3, n=3, narrow=True).insert({0: 1, 1: 2}).insert({1: 1, 2: 1}).insert({0: 2, 2: 2})
+t.op(SWAP_R, [0, 2], LIGHT).op(ZERO_E, [0, 2], LIGHT).op(SWAP_C, [0, 2], LIGHT).op(MSA, [1, 0] + t.coef(2), LIGHT).op(SWAP_R, [1, 2], FULL)
+seeds.append(t.write("seed-swaps-square.tape"))
+# regression: positional insertion with a swap pending and no column left to read (the harness could not settle the
+# known finding C09-orderrows-holes); raw tape found by the random driver
+t = Tape(1300010)
+t.b = list(bytes.fromhex(REG_INSERT_AT_PENDING))
+seeds.append(t.write("reg-insert-at-pending-no-column.tape"))
+print("seeds:", " ".join(seeds))
 
 os.makedirs(os.path.join(ROOT, "findings"), exist_ok=True)
 with open(os.path.join(ROOT, "findings", "C09.json"), "w") as f:
